@@ -9,7 +9,7 @@
      hexify                                   every single byte
      unhexify                                 every string of two ASCII characters *)
 From Coq Require Import Strings.String Strings.Ascii.
-From BP7 Require Import Base.Prelude Gen.Consts Gen.Tables Model.Types Model.Validate Model.Ops Model.Api Model.Hex.
+From BP7 Require Import Base.Prelude Gen.Consts Gen.Tables Spec.CrcSpec Model.Types Model.Validate Model.Ops Model.Api Model.Hex.
 
 (* ---------- rows of a table ---------- *)
 Definition flat (rows : list string) : list byte := concat (map list_byte_of_string rows).
@@ -73,6 +73,10 @@ Definition unhex_answer (a b : N) : list byte :=
   end.
 Definition unhex_row (i : N) (r : list byte) : bool := bytes_eqb r (unhex_answer (i / 128) (i mod 128)).
 
+(* CRC16B / CRC32B: row b = checksum of the one-byte message [b], 4 / 8 hex digits *)
+Definition crc16_row (b : N) (r : list byte) : bool := bytes_eqb r (hexify (be_enc 2 (crc16_x25 [n2b b]))).
+Definition crc32_row (b : N) (r : list byte) : bool := bytes_eqb r (hexify (be_enc 4 (crc32c [n2b b]))).
+
 (* ---------- one pass over every row of every table ---------- *)
 Lemma all_tables_ok :
   walk bf_row T_BLOCKFLAGS_W 0 (flat T_BLOCKFLAGS) 256 = true
@@ -80,7 +84,9 @@ Lemma all_tables_ok :
   /\ walk hop_row T_HOP_W 0 (flat T_HOP) (N.to_nat 65536) = true
   /\ walk crc_row T_CRCCODE_W 0 (flat T_CRCCODE) 256 = true
   /\ walk hexify_row T_HEXIFY_W 0 (flat T_HEXIFY) 256 = true
-  /\ walk unhex_row T_UNHEX2_W 0 (flat T_UNHEX2) (N.to_nat 16384) = true.
+  /\ walk unhex_row T_UNHEX2_W 0 (flat T_UNHEX2) (N.to_nat 16384) = true
+  /\ walk crc16_row T_CRC16B_W 0 (flat T_CRC16B) 256 = true
+  /\ walk crc32_row T_CRC32B_W 0 (flat T_CRC32B) 256 = true.
 Proof. vm_compute. repeat split; reflexivity. Qed.
 
 (* ---------- the statements ---------- *)
@@ -125,8 +131,20 @@ Proof.
 Qed.
 Theorem tie_unhex a b : a < 128 -> b < 128 -> code_unhex a b = unhex_answer a b.
 Proof.
-  intros Ha Hb. destruct all_tables_ok as (_ & _ & _ & _ & _ & H). pose proof (walk_at _ _ _ _ H (a * 128 + b) ltac:(lia)) as H0.
+  intros Ha Hb. destruct all_tables_ok as (_ & _ & _ & _ & _ & H & _). pose proof (walk_at _ _ _ _ H (a * 128 + b) ltac:(lia)) as H0.
   unfold unhex_row in H0. apply bytes_eqb_eq in H0. unfold code_unhex. rewrite H0.
   replace ((a * 128 + b) / 128) with a by (apply N.div_unique with b; lia).
   replace ((a * 128 + b) mod 128) with b by (apply N.mod_unique with a; lia). reflexivity.
+Qed.
+
+Definition code_crc16 (b : N) : list byte := code_row (flat T_CRC16B) T_CRC16B_W (N.to_nat b).
+Definition code_crc32 (b : N) : list byte := code_row (flat T_CRC32B) T_CRC32B_W (N.to_nat b).
+(* the library's two checksum functions on every one-byte message are the bitwise catalogue CRCs of Spec/CrcSpec.v: with the fixed
+   initial register each entry of a 256-entry lookup table is exercised by exactly one of these messages *)
+Theorem tie_crc_bytes b : b < 256 ->
+  code_crc16 b = hexify (be_enc 2 (crc16_x25 [n2b b])) /\ code_crc32 b = hexify (be_enc 4 (crc32c [n2b b])).
+Proof.
+  intros Hb. destruct all_tables_ok as (_ & _ & _ & _ & _ & _ & H16 & H32).
+  pose proof (walk_at _ _ _ _ H16 b ltac:(lia)) as A. pose proof (walk_at _ _ _ _ H32 b ltac:(lia)) as B.
+  unfold crc16_row in A. unfold crc32_row in B. apply bytes_eqb_eq in A, B. split; assumption.
 Qed.
